@@ -50,7 +50,7 @@ REGISTRY["C21"] = {
 REGISTRY["C14"] = {
     "explanation": "Integer canonicity kernels are decided over their full domains (all byte strings <= 5 bytes, all "
                    "u32, all u64, all i64).",
-    "outside": "new_number/new_malachite_number beyond 9 bytes; histories longer than the stated step count",
+    "outside": "new_number/new_malachite_number (bignum); histories longer than the stated step count; atom_eq on atoms longer than 4 bytes only through the = operator harnesses listed",
     "obligations": [
         ob("c14::c14_fits_in_small_atom_iff_minimal",
            "fits_in_small_atom(b)=Some(v) <=> b is the minimal two's complement encoding of 0<=v<2^26",
@@ -71,7 +71,11 @@ REGISTRY["C14"] = {
                       ("c12::c12_step_new_substr_view_contents", "substr of a view: bytes = parent slice"),
                       ("c12::c12_step_new_substr_inline_contents", "substr of an inline integer: bytes = parent slice"),
                       ("c12::c12_step_checkpoint_full_contents", "nodes older than a checkpoint survive a restore and later allocations"),
-                      ("c12::c12_step_checkpoint_transparent_contents", "nodes older than a transparent checkpoint survive")]],
+                      ("c12::c12_step_checkpoint_transparent_contents", "nodes older than a transparent checkpoint survive")]]
+       + [ob("opm::" + t["harness"], "atom_eq agrees with byte equality on " + t["shape"] + " (C14/ assertion of the = operator harness)",
+             "shape concrete; atom contents / inline values symbolic", timeout=900, checks="nomem")
+          for t in __import__("json").load(open(__import__("os").path.join(__import__("os").path.dirname(__import__("os").path.abspath(__file__)), "gen_registry.json")))["opm"]
+          if t["op"] == "eq" and "pair" not in t["shape"] and t["shape"].count(",") == 1],
 }
 
 REGISTRY["C29"] = {
@@ -136,14 +140,22 @@ def _steps():
     return out
 
 _ALLOC_OBS = [ob(h, w, "one operation from the symbolic pre-state; unwind 8", timeout=1200, checks="nomem") for h, w in _steps()]
+_RESTORE_OBS = [ob("c12::c12_step_maybe_restore_" + k, "maybe_restore_with_node after 130 pairs (1040 bytes of savings) with a return value that is " + w,
+                   "transparent checkpoint, concrete 130-pair batch, symbolic node contents; unwind 132", timeout=2400, checks="nomem", realloc_unwind=400,
+                   tier=("quick" if k in ("before", "pair", "old_bytes") else "thorough"))
+                # ("new_bytes": a new heap atom as return value - the obligation c12_step_maybe_restore_new_bytes exists in the
+                #  harness crate but did not finish in 40 minutes and is not registered)
+                for k, w in [("before", "older than the checkpoint"),
+                             ("old_bytes", "a new view of bytes older than the checkpoint"), ("pair", "a new pair"),
+                             ("inline", "an inline small integer")]]
 
 REGISTRY["C12"] = {
     "explanation": "Inductive-step formulation: one allocator operation from a symbolic pre-state, counts compared with the "
                    "three-counter reference model (every atom a separately stored byte string). " + _PRE,
     "outside": "atoms longer than 6 bytes, concat of more than 3 terms; heap limits other than the concrete ones used; "
-               "maybe_restore_with_node is checked under C04. The step argument extends to histories because the "
+               "maybe_restore_with_node only with a 130-pair batch and the five return-value classes. The step argument extends to histories because the "
                "pre-state ranges over all counter values; that extension is an argument, not a solver result.",
-    "obligations": _ALLOC_OBS,
+    "obligations": _ALLOC_OBS + _RESTORE_OBS,
 }
 REGISTRY["C13"] = {
     "explanation": "Same single-step harnesses as C12 (verdicts are shared through the goto-binary cache); the C13/ "
@@ -155,20 +167,184 @@ REGISTRY["C13"] = {
     "obligations": _ALLOC_OBS,
 }
 
+def _c09_obs():
+    L = []
+    def add(name, what, bounds, **kw):
+        L.append(ob("c09::" + name, what, bounds + "; argument lengths any value < 2^21 (length-only atoms), budget any u64", checks="nomem", **kw))
+    add("c09_legacy_wrap_mul_like", "pre-hard-fork model, mul-like cost function, 5-byte opcode with any 4-byte multiplier, two atoms: "
+        "base > 2^32-1 must fail", "unlimited budget", timeout=600)
+    add("c09_unknown_op0b_0args_legacy", "empty opcode is rejected", "no arguments", timeout=600)
+    add("c09_unknown_op6b_0args_legacy", "6-byte opcode is rejected", "any opcode bytes", timeout=600)
+    for n in (1, 2, 3, 4, 5):
+        for k in (0, 1):
+            for m in ("legacy", "new"):
+                add(f"c09_unknown_op{n}b_{k}args_{m}", f"{n}-byte opcode (any bytes), {k} argument(s) (atom of any length, or a pair), {m} cost model",
+                    "all four cost functions", timeout=900)
+    for n in (2, 4):
+        for cf in range(4):
+            for m in ("legacy", "new"):
+                add(f"c09_unknown_op{n}b_2args_cf{cf}_{m}", f"{n}-byte opcode, cost function {cf}, 2 arguments (atoms of any length, or a pair), {m} cost model",
+                    "one cost function per harness", timeout=1200, tier=("quick" if n == 4 and cf == 2 else "thorough"))
+    # (3-argument obligations c09_unknown_op1b_3args_* exist in the harness crate but are not registered: they exhaust
+    #  40 GB in the SAT solver even with one cost function, multiplier 0, no pairs and lengths < 4096)
+    for m in ("legacy", "new"):
+        add(f"c09_unknown_op2b_2args_{m}", "2-byte opcode, all cost functions, 2 arguments", "all four cost functions", timeout=3000, tier="thorough")
+    return L
+
+
 REGISTRY["C09"] = {
-    "explanation": "op_unknown is executed on a symbolic opcode of 0..=6 bytes, an argument list of up to 3 items each of "
-                   "which is an atom of SYMBOLIC LENGTH (any u32, through the length-only hook Allocator::verif_atom_span) "
-                   "or a pair, proper or improper terminator, a symbolic budget and either cost model, and compared with "
-                   "the published rule evaluated in u128 arithmetic (no wrapping, no early exits).",
-    "outside": "argument lists longer than 3; strict-mode routing is a separate obligation",
+    "explanation": "op_unknown is executed on an opcode of concrete length 0..6 with symbolic bytes, an argument list of "
+                   "concrete arity 0..2 whose items are atoms of SYMBOLIC LENGTH (length-only atoms through the hook "
+                   "Allocator::verif_atom_span) or a pair at a symbolic position, a symbolic budget and either cost model, "
+                   "and compared with the published rule evaluated without wrapping or early exits.",
+    "outside": "argument lists longer than 2 (3-argument obligations exhaust 40 GB in the solver); argument atoms of 2 MiB or more; "
+               "strict-mode routing (ChiaDialect::op with NO_UNKNOWN_OPS) is checked under C07",
     "assumptions": ["atoms created by verif_atom_span have no backing bytes; op_unknown reads lengths only (a byte read "
                     "would fail natively at replay)"],
+    "obligations": _c09_obs(),
+}
+
+import json as _json, os as _os
+_SERDE = _json.load(open(_os.path.join(_os.path.dirname(_os.path.abspath(__file__)), "gen_serde_registry.json")))
+
+def _tmpl_obs(kind, quick_filter=None):
+    L = []
+    for t in _SERDE[kind]:
+        tier = "quick" if (quick_filter is None or quick_filter(t["harness"])) else "thorough"
+        L.append(ob("serde::" + t["harness"], "byte-string template " + t["template"] + " (XX = any byte)",
+                    "structure concrete, payload bytes symbolic; expected outcome computed by the generator's reference decoder",
+                    timeout=900, checks="nomem", tier=tier))
+    return L
+
+_KERNEL_PREFIX = ob("serde::c15_prefix_roundtrip_all_sizes",
+    "write_atom_encoding_prefix_with_size for EVERY size (full u64) and first byte: minimal prefix, decodes back to "
+    "(prefix length, size) consuming exactly the prefix, sizes >= 2^34 rejected, atom_length_bits agrees",
+    "all 2^64 sizes x 256 first bytes", timeout=600)
+_KERNEL_DECODE = ob("serde::c16_decode_size_all_prefixes",
+    "decode_size_with_offset for EVERY 7-byte prefix buffer and every available length 0..=6: value, offset, bytes consumed, "
+    "rejection of truncated / oversized / 7-8 leading-ones prefixes with bad-encoding",
+    "all 2^55 buffers x 7 lengths", timeout=600)
+
+REGISTRY["C15"] = {
+    "explanation": "Length-prefix kernel decided over its full range (this is the 'every length-prefix boundary up to 2^34-1' "
+                   "clause; bodies are not materialised). Tree level: for byte-string templates whose structure is concrete and "
+                   "whose payload bytes are symbolic, decode -> re-serialize is compared with the input (identical iff the "
+                   "generator's reference decoder says the input is canonical), and both serialized-length functions must "
+                   "report the bytes consumed.",
+    "outside": "trees with more than one pair (two-pair templates exceeded 10 minutes), atoms with real bodies longer than 5 "
+               "bytes, ObjectCache serialized_length (HashMap keyed), symbolic atoms of <= 4 bytes in the re-serialization check",
+    "obligations": [_KERNEL_PREFIX,
+        ob("serde_canon::c15_own_prefix_is_canonical_all_sizes", "is_canonical_atom accepts the serializer's own length prefix for EVERY atom size 2..2^34-1",
+           "all sizes; prefix only (bodies are not materialised: is_canonical_atom seeks past them)", timeout=600),
+        ob("serde_canon::c15_canonical_prefix_is_minimal", "is_canonical_atom accepts a length prefix iff it is the minimal one for its size (every 7-byte prefix buffer)",
+           "all 2^55 prefix buffers", timeout=900),
+    ] + [o for o in _tmpl_obs("classic") if "bad_" not in o["harness"]],
+}
+REGISTRY["C16"] = {
+    "explanation": "decode_size_with_offset decided for every prefix buffer. Tree level: node_from_bytes, parse_triples, "
+                   "serialized_length_from_bytes(_trusted) and is_canonical_serialization on byte-string templates (well-formed, "
+                   "non-minimal prefixes, truncated, oversized, trailing bytes, stray back-reference markers): accept/reject, bytes "
+                   "consumed, root triple, canonicity and allocation bounds against the outcome computed by a reference decoder "
+                   "of the format (harness/gen_serde.py) for all payload values.",
+    "outside": "fully symbolic buffers (symbolic structure makes the decoders' Vec stacks symbolic: 1-byte inputs did not "
+               "finish in 20 minutes); tree_hash_from_stream and parse_triples(hash=true) (SHA-256) are not run; trees with more "
+               "than one pair",
+    "obligations": [_KERNEL_DECODE] + _tmpl_obs("classic"),
+}
+REGISTRY["C18"] = {
+    "explanation": "node_from_bytes_backrefs, node_from_bytes_backrefs_old and serialized_length_from_bytes on templates with "
+                   "back-references: every path 1..15 (all routes of up to 3 steps) and selected longer paths against three "
+                   "stack shapes, references to references, empty/zero/leading-zero paths, truncated and malformed paths, "
+                   "trailing bytes. Both decoders must produce exactly the tree computed by the generator's reference "
+                   "decoder (compared through the classic serialization, for all payload values), leave identical pair "
+                   "counts, and the length probe must report the bytes consumed; all three must reject what the reference rejects.",
+    "outside": "symbolic paths (paths are enumerated, payloads are symbolic); stacks deeper than 2 entries; inputs longer than "
+               "13 bytes; the error *kind* on rejection differs between the decoders by design and is not compared",
+    "obligations": _tmpl_obs("backref", lambda h: any(k in h for k in ("_path1", "_path2", "_path3", "_path4", "_path5", "_path6", "_path7", "ref_", "two_refs", "atom_", "pair_", "consref_", "refref_1")) and not any(k in h for k in ("path10", "path11", "path12", "path13", "path14", "path15", "path16", "path17", "path20", "path23", "path24", "path31", "path32", "_s3_", "refref_2"))),
+}
+
+_GEN = _json.load(open(_os.path.join(_os.path.dirname(_os.path.abspath(__file__)), "gen_registry.json")))
+def _opm_obs():
+    return [ob("opm::" + t["harness"], f"operator {t['op']} on {t['shape']}: outcome (value, cost, error kind, budget behaviour) equals the reference model",
+               "shape concrete; atom contents, budget (any u64) and cost-model flags symbolic", timeout=900, checks="nomem")
+            for t in _GEN["opm"]]
+
+_RP_OBS = [ob("rp::" + h, w, "program shape concrete; atom contents, budget (any u64, 0 = unlimited) and flags {NEW_COST_MODEL, NO_UNKNOWN_OPS, "
+                "CANONICAL_INTS, ENABLE_GC, LIMIT_SOFTFORK} symbolic; Dialect = MiniDialect (real ChiaDialect for everything but the "
+                "opcode table, which is restricted to the byte/structure operators)", timeout=1200, checks="nomem", fs_array=512)
+           for h, w in [("rp_cons_quotes", "run_program of (c (q . X) (q . Y)): result, exact cost 91, success iff budget is 0 or >= 91, else CostExceeded; allocator counts"),
+                        ("rp_if_true", "run_program of (i (q . C) (q . X) (q . Y)) with non-empty C"),
+                        ("rp_if_nil", "run_program of (i (q . ()) (q . X) (q . Y))"),
+                        ("rp_paths_cons", "run_program of (c 2 5) on environment (X Y): path lookups through the inline-integer fast path"),
+                        ("rp_unknown_opcode", "run_program of (15 (q . X)): nil at cost 22 in consensus mode, Unimplemented in strict mode")]]
+
+REGISTRY["C04"] = {
+    "explanation": "Kernel level only: Allocator::maybe_restore_with_node, the value-preserving restore that ENABLE_GC adds to a run, "
+                   "from a transparent checkpoint followed by 130 pairs (above the 1024-byte savings threshold) for four classes of "
+                   "return value (older node, new view of old bytes, new pair, inline integer; a NEW heap atom did not finish): counts unchanged, NoReplace only for surviving nodes, Replace(n) with identical bytes for "
+                   "invalidated atoms, Aborted for trees, never an internal error; all older nodes unchanged.",
+    "outside": "whole runs with and without ENABLE_GC are not compared (run_program under ChiaDialect links the BLS/secp code and "
+               "takes minutes per obligation just to build); nested checkpoints; the gc_candidate opcode list itself",
+    "obligations": _RESTORE_OBS,
+}
+REGISTRY["C10"] = {
+    "explanation": "Cost kernels with overflow exits decided over full ranges against the documented formulas in 128-bit arithmetic "
+                   "(new-model div/divmod/mod, modpow both models), the unknown-operator cost functions (C09 harnesses, any lengths "
+                   "below 2 MiB), and for the byte/structure operators the cost returned on symbolic arguments equals the reference "
+                   "model's formula (if, c, f, r, l, =, >s, strlen, substr, concat, not, any, all; both cost models).",
+    "outside": "arithmetic operators whose cost depends on bignum magnitudes (+ - * logand logior logxor ash lsh lognot new-model "
+               "limbs), sha256/keccak/BLS/secp/coinid/sha256tree costs; docs/cost-model.md describes the new-model logand/logior/logxor "
+               "charge as sign-dependent while the code always charges max(len, accumulator limbs) - noted, not decided here",
     "obligations": [
-        ob("c09::c09_unknown_legacy_2args", "pre-hard-fork model, <=2 args", "opcode 0..=6 bytes, args <= 2, lengths any u32, budget any u64", timeout=900),
-        ob("c09::c09_unknown_newmodel_2args", "NEW_COST_MODEL, <=2 args", "opcode 0..=6 bytes, args <= 2, lengths any u32, budget any u64", timeout=900),
-        ob("c09::c09_unknown_legacy_3args", "pre-hard-fork model, <=3 args", "opcode 0..=6 bytes, args <= 3, lengths any u32", tier="thorough", timeout=3000),
-        ob("c09::c09_unknown_newmodel_3args", "NEW_COST_MODEL, <=3 args", "opcode 0..=6 bytes, args <= 3, lengths any u32", tier="thorough", timeout=3000),
-    ],
+        ob("c10::c10_new_div_cost_all_lengths", "compute_new_div_cost = 1000 + 50 (a0+a1) + a0 a1 / 10 for all 32-bit lengths", "all 2^64 length pairs", timeout=900),
+        ob("c10::c10_modpow_cost_lengths_below_4096", "compute_modpow_cost = documented formula, both models", "b, e, m < 4096", timeout=1500),
+        ob("c10::c10_new_modpow_overflow_exits", "new-model modpow cost: exact value iff it fits 64 bits, else CostExceeded", "any 32-bit e, m; b = 0", timeout=900),
+    ] + _opm_obs() + [o for o in _c09_obs() if o["tier"] == "quick" and "wrap" not in o["harness"]],
+}
+REGISTRY["C07"] = {
+    "explanation": "Restriction flags read by the interpreter and dialect on the templates that finish: every run_program template runs "
+                   "with a symbolic subset of {NO_UNKNOWN_OPS, CANONICAL_INTS, LIMIT_SOFTFORK, ENABLE_GC} and must give the same result "
+                   "and cost for every subset, except the unknown-opcode template, which must succeed (nil, cost 22) without "
+                   "NO_UNKNOWN_OPS and fail with Unimplemented with it. op_unknown never consults restriction flags (C09 harnesses "
+                   "run with both cost models).",
+    "outside": "LIMITS / DISABLE_OP size limits of * / divmod mod modpow g1/g2_multiply (their prologues sit behind bignum "
+               "conversions that do not finish), opcode 60 gating and RELAXED_BLS (ChiaDialect::op links the BLS code), "
+               "softfork argument errors and LIMIT_SOFTFORK depth (guard templates do not finish), LIMIT_HEAP (wheel side)",
+    "obligations": _RP_OBS,
+}
+REGISTRY["C01"] = {
+    "explanation": "Differential harness real operator vs reference model M (harness/src/opm.rs, written from the CLVM operator "
+                   "definitions) for the byte/structure operators of the classic set on symbolic arguments: same value, same cost, "
+                   "same error kind.",
+    "outside": "arithmetic/bitwise operators (num-bigint arithmetic does not finish under CBMC even for 2-byte operands - measured), "
+               "sha256, path lookups, the evaluation loop (composition of operators); M stands in for the Python clvm package, which "
+               "is not installed here",
+    "obligations": _opm_obs() + _RP_OBS,
+}
+REGISTRY["C03"] = {
+    "explanation": "Representation independence for the modelled operators: the reference model M is a function of argument BYTES only, "
+                   "and the same operators are decided on arguments in the heap-view representation and in the inline small-integer "
+                   "representation with symbolic values (allocated last, see DESIGN 10.1), including two symbolic inline integers for "
+                   "= and >s; agreement with M in every representation gives the same outcome across representations. "
+                   "run_program templates: allocator counts after the run depend only on the program.",
+    "outside": "heap-copied (concat) representation; arithmetic operators; heap history (earlier runs, restores) other than the "
+               "harness's own pre-allocations; the validated-point cache",
+    "obligations": [o for o in _opm_obs() if "_sym" in o["harness"] or "_c" in o["harness"].split("opm_")[1]] + _RP_OBS,
+}
+REGISTRY["C02"] = {
+    "explanation": "Loop lemma on five run_program templates (exact cost, success iff budget 0 or >= cost, otherwise CostExceeded and nothing else) and operator lemma of the budget property: for the modelled operators the outcome under a symbolic budget equals the "
+                   "model's, in which the budget is only compared with partial cost sums (so: same result and cost under every "
+                   "succeeding budget, failure below it only with CostExceeded).",
+    "outside": "programs beyond the five one-operator templates (apply and softfork templates did not finish in 15 minutes); "
+               "operators without a model (arithmetic, hashing, crypto); grandfathered softfork guards",
+    "obligations": _opm_obs() + _RP_OBS,
+}
+REGISTRY["C25"] = {
+    "explanation": "Every operator harness runs with Rust panics, arithmetic-overflow, bounds and unwinding checks on; the C25/ "
+                   "assertion states that no outcome is EvalErr::InternalError. Argument lists include pairs where atoms are expected "
+                   "and wrong arities.",
+    "outside": "run_program beyond the five one-operator templates; arithmetic operators on non-trivial operands; stack limits",
+    "obligations": _opm_obs() + _RP_OBS + [o for o in _c09_obs() if o["tier"] == "quick" and "_1args_" in o["harness"]],
 }
 
 REGISTRY["PROBE"] = {"obligations": [ob("probe::probe_p%s" % n, "probe", "") for n in
